@@ -669,11 +669,20 @@ repsLoop:
 		}
 
 		var counter int
+		counted := []interop.PublicKey{}
 		for _, sig := range sigs[i] {
 			pubsI := Nodes(cid, uint8(i))
+		pubsLoop:
 			for iterator.Next(pubsI) {
 				pub := iterator.Value(pubsI).(interop.PublicKey)
+				for _, c := range counted {
+					if string(c) == string(pub) {
+						// every member is counted at most once
+						continue pubsLoop
+					}
+				}
 				if crypto.VerifyWithECDsa(msg, pub, sig, crypto.Secp256r1Sha256) {
+					counted = append(counted, pub)
 					counter++
 					break
 				}
